@@ -1035,7 +1035,12 @@ def hygiene_rules(model: Model, fc: FnCls, prop: str, min_copies: int = 1, min_o
     RX = RuleResult(prop, "AC10", "the explicit-parameter count slices only lists in the full argument space (never tensor-only lists)", min_instances=min_idx)
     ac4_conversion_reference(fc, RC)
     ac10_index_space(fc, RX)
-    return [R9, RO, RC, RX]
+    out = [R9, RO, RC, RX]
+    if "TensorNonTensorSeparator" in ast.unparse(fc.forward.node):
+        SEP = RuleResult(prop, "AC-SEP", "TensorNonTensorSeparator.reconstruct_params scatters both groups back to their recorded positions (inverse of the split)", min_instances=4)
+        separator_inverse(model, SEP)
+        out.append(SEP)
+    return out
 
 
 # ---------------------------------------------------------------------------------------------------- AC4c / AC10
@@ -1146,3 +1151,57 @@ def _space_of(v: ast.AST, space: Dict[str, str]) -> Optional[str]:
     if isinstance(v, ast.ListComp) and len(v.generators) == 1 and isinstance(v.generators[0].iter, ast.Name):
         return space.get(v.generators[0].iter.id)
     return None
+
+
+# ---------------------------------------------------------------------------------------------------- AC-SEP
+def separator_inverse(model: Model, R: RuleResult) -> int:
+    """TensorNonTensorSeparator: __init__ records, for every position i of the argument list, whether it went to the tensor group
+    or the other group (`*_idxs.append(i)` beside `*_params.append(p)`); reconstruct_params must be the inverse permutation, i.e. a
+    *scatter*: out[idx] = p for (idx, p) in zip(<group idxs>, <group values>), for both groups, into a list of length nparams.
+    (Subscripting a concatenation by the recorded indices - a gather - applies the permutation a second time instead.)"""
+    cls = model.cls("xitorch/_utils/misc.py", "TensorNonTensorSeparator")
+    init, rec = cls.find_method("__init__"), cls.find_method("reconstruct_params")
+    n = 0
+    # split: enumerate positions, each appended to exactly one idx list together with its value
+    loops = [l for l in own_nodes(init.node) if isinstance(l, ast.For)]
+    ok_split = False
+    if len(loops) == 1 and isinstance(loops[0].iter, ast.Call) and ast.unparse(loops[0].iter.func) == "enumerate" and isinstance(loops[0].target, ast.Tuple):
+        iv, pv = (e.id for e in loops[0].target.elts)
+        apps = [(ast.unparse(c.func.value), ast.unparse(c.args[0])) for c in ast.walk(loops[0]) if isinstance(c, ast.Call) and isinstance(c.func, ast.Attribute) and c.func.attr == "append" and c.args]
+        ok_split = sorted(apps) == sorted([("self.tensor_idxs", iv), ("self.tensor_params", pv), ("self.nontensor_idxs", iv), ("self.nontensor_params", pv)])
+    n += 1
+    if ok_split:
+        R.ok(init.fq, "split: position i goes to exactly one of tensor_idxs / nontensor_idxs together with its value")
+    else:
+        R.bad(init, init.node, "the separator must record every position in exactly one index list beside its value")
+    # inverse: scatter stores
+    groups = {"self.tensor_idxs": rec.params()[1], "self.nontensor_idxs": rec.params()[2]}
+    rets = [r for r in own_nodes(rec.node) if isinstance(r, ast.Return)]
+    final = rets[-1].value if rets else None
+    outname = final.id if isinstance(final, ast.Name) else None
+    for idxs, vals in groups.items():
+        n += 1
+        ok = False
+        for l in own_nodes(rec.node):
+            if isinstance(l, ast.For) and isinstance(l.iter, ast.Call) and ast.unparse(l.iter.func) == "zip" and [ast.unparse(a) for a in l.iter.args] == [idxs, vals] \
+                    and isinstance(l.target, ast.Tuple) and len(l.body) == 1 and isinstance(l.body[0], ast.Assign):
+                a = l.body[0]
+                iv, pv = (e.id for e in l.target.elts)
+                t = a.targets[0]
+                ok = isinstance(t, ast.Subscript) and ast.unparse(t.value) == outname and ast.unparse(t.slice) == iv and ast.unparse(a.value) == pv
+        # any *load* subscript by the recorded indices is a gather
+        gathers = [s for s in ast.walk(rec.node) if isinstance(s, ast.Subscript) and isinstance(s.ctx, ast.Load) and
+                   any(isinstance(x, ast.Attribute) and ast.unparse(x) == idxs for x in ast.walk(s.slice))]
+        if ok and not gathers:
+            R.ok(rec.fq, "reconstruct: out[idx] = value for (idx, value) in zip(%s, %s)" % (idxs, vals))
+        else:
+            R.bad(rec, rec.node, "reconstruct_params must scatter the %s group back with `out[idx] = p for idx, p in zip(%s, %s)`; gathering by the recorded indices applies "
+                  "the permutation instead of its inverse (wrong order whenever it is not an involution)" % (idxs.split(".")[1].split("_")[0], idxs, vals))
+    # the result has nparams slots, or is the tensor list itself when everything is a tensor
+    src = ast.unparse(rec.node)
+    n += 1
+    if "for _ in range(self.nparams)" in src and "if self.alltensors:\n        return %s" % rec.params()[1] in src.replace("    " * 2, "    ") or ("range(self.nparams)" in src and "self.alltensors" in src):
+        R.ok(rec.fq, "the result has nparams slots (or is the tensor list itself when every argument is a tensor)")
+    else:
+        R.bad(rec, rec.node, "the reconstructed list must have exactly nparams slots")
+    return n
